@@ -321,6 +321,10 @@ def check(ctx):
     r5(ctx, retsets)
     ctx.note("interval values are only compared with constants and copied, so the representative classes (both boundaries "
              "+-1, 0, 2^31-1, 2^31, 2^32-1) are exhaustive for all 2^32 values")
+    from specs import C13
+    with ctx.shared({"C13.R3": ("C17.R6", "a PDU whose version differs from the negotiated one is refused at any point of the connection: the interval "
+                                "fields of a version-1 End of Data never reach a version-0 session")}):
+        C13.r3(ctx, retsets)
 
 
 PK = "rtrlib/rtr/packets.c"
